@@ -8,6 +8,14 @@ Property theorems only (helper lemmas live in `Proofs/`). A text is any list of 
 Unicode class `is_alphanumeric` of each code point, `char::to_lowercase`, the ASCII-folding table,
 the stemmer, the dictionary matcher and the regex matcher are parameters: every theorem holds for
 every assignment of them.
+
+The model is **stateless**: every analyzer is a function of the text alone (the only buffer that
+survives an `advance`, the facet tokenizer's text, is threaded explicitly inside one stream —
+`facetChain`). The Rust tokenizers and filters do keep reusable buffers inside the analyzer
+(`token`, `buffer`, `cuts`, `parts`) that must be reset by `token_stream`; "the tokens of a text do
+not depend on what the analyzer processed before, nor on whether earlier streams were drained" is
+therefore a correspondence obligation, checked by the harness on reused analyzers with abandoned
+streams (`check_history`), not a theorem about this model.
 -/
 namespace TantivyModel.C19
 open TantivyModel TantivyModel.Tok TantivyModel.Snip
